@@ -83,16 +83,50 @@ type Config struct {
 	PassOver   bool      `json:"pass_over,omitempty"`      // judge the pass-over clause (single worker)
 	Crowd      int       `json:"crowd,omitempty"`          // > 1: that many concurrent Mine calls (auto flavour only)
 	MustFind   bool      `json:"must_find,omitempty"`      // generator guarantees a qualifying nonce is reachable quickly
+	// SharedWorker (crowd runs): all concurrent calls go through ONE Worker object, the way an application keeps a
+	// single pow.Worker around; otherwise every call has a Worker of its own.
+	SharedWorker bool `json:"shared_worker,omitempty"`
+	// BigData > 0: the payload has that many bytes (the bytes of DataHex repeated, then a running counter): payloads of
+	// megabytes are legal, and hashing them takes long enough for an implementation to treat them differently.
+	BigData int `json:"big_data,omitempty"`
+
+	dataCache []byte
 }
 
 func (c *Config) data() []byte {
+	if c.dataCache != nil {
+		return c.dataCache
+	}
 	b, err := hex.DecodeString(c.DataHex)
 	if err != nil {
 		panic(err)
 	}
+	if c.BigData > 0 {
+		big := make([]byte, c.BigData)
+		n := copy(big, b)
+		for i := n; i < len(big); i++ {
+			big[i] = byte(i) ^ byte(i>>8) ^ byte(i>>16)*31
+		}
+		b = big
+	}
+	c.dataCache = b
 	return b
 }
-func (c *Config) msgLen() int        { return len(c.DataHex)/2 + 8 }
+
+// callData is the payload of call i of a crowd run: the calls mine different messages of the same length.
+func (c *Config) callData(i int) []byte {
+	d := append([]byte{}, c.data()...)
+	if len(d) > 0 {
+		d[len(d)-1] ^= byte(i)
+	}
+	return d
+}
+func (c *Config) msgLen() int {
+	if c.BigData > 0 {
+		return c.BigData + 8
+	}
+	return len(c.DataHex)/2 + 8
+}
 func (c *Config) targetF() float64   { return math.Float64frombits(c.TargetBits) }
 func (c *Config) craftCtx() craftCtx { return makeCraftCtx(c.Version, c.msgLen(), c.TargetBits) }
 
@@ -225,6 +259,30 @@ func plantCarry(r *rand.Rand, c *Config, good string) string {
 	if tier16 := e == 16 && (w > 7 || r.IntN(3) != 0); tier16 {
 		e = 8
 	}
+	if w > 64 {
+		// many workers: the start nonces k*floor((2^64-1)/w) of the workers beyond the 64th lie more than a batch below
+		// a multiple of 2^32, so that not their first but their second or third batch straddles it: look for such a
+		// worker (any will do) and plant the aliases there
+		e = 32
+		for _, b := range []int{1, 2} {
+			for _, kk := range r.Perm(w - 1) {
+				st := workerStart(w, kk+1)
+				base := st + uint64(64*b)
+				rem := uint64(1)<<32 - base%(1<<32)
+				if base%(1<<32) == 0 || rem > 63 {
+					continue
+				}
+				for _, lane := range []uint64{rem, rem + 1, 63} {
+					if lane <= 63 && lane >= rem {
+						c.Stub.Specials = append(c.Stub.Specials, Special{base + lane - 1<<32, good})
+					}
+				}
+				c.Stub.Specials = append(c.Stub.Specials, Special{st + uint64(64*(b+1)) + uint64(r.IntN(64)), "zero"})
+				return fmt.Sprintf("carry:2^32@worker%d,batch%d", kk+1, b)
+			}
+		}
+		return ""
+	}
 	mod := uint64(1) << e
 	first := 1
 	if e == 32 {
@@ -344,8 +402,11 @@ func genMarathon(r *rand.Rand) *Config {
 }
 
 // genCrowd: several concurrent Mine calls on an unattainable target, cancelled one after the other (crowd.go).
-func genCrowd(r *rand.Rand) *Config {
-	c := &Config{Prop: "C13", Version: 1 + r.IntN(2), Hash: "stub", TargetNote: "crowd finds:none"}
+func genCrowd(r *rand.Rand, prop string, version int) *Config {
+	c := &Config{Prop: prop, Version: 1 + r.IntN(2), Hash: "stub", TargetNote: "crowd finds:none"}
+	if version != 0 {
+		c.Version = version
+	}
 	c.Crowd, c.Workers = pick(r, 2, 3, 5, 5), pick(r, 1, 2, 8, 64, 64)
 	data := genData(r)
 	c.DataHex = hex.EncodeToString(data)
@@ -359,6 +420,7 @@ func genCrowd(r *rand.Rand) *Config {
 	c.Strat = StratSpec{Kind: pick(r, "roundrobin", "uniform", "roundrobin"), Seed: r.Uint64()}
 	c.Fault = FaultPlan{Kind: "cancel"}
 	c.StepCap = 1000
+	c.SharedWorker = r.IntN(3) != 0
 	return c
 }
 
@@ -366,12 +428,14 @@ func genCrowd(r *rand.Rand) *Config {
 func GenC13(seed uint64, tier string) *Config {
 	r := kernel.NewRand(seed)
 	// both draws are made in every flavour, so that the same seed means the same run in the plain and the race build
-	marathon, crowd := r.IntN(900) == 0, r.IntN(300) == 0
-	if marathon && Flavour != "race" {
+	marathon, crowdDraw := r.IntN(900) == 0, r.IntN(300)
+	if marathon && Flavour != "race" && Flavour != "autorace" {
 		return genMarathon(r)
 	}
-	if crowd && Flavour == "auto" {
-		return genCrowd(r)
+	// crowd runs need goroutine identities inherited through instrumented go statements: auto flavours only; the
+	// race-detector variant of that flavour exists mostly for them
+	if (crowdDraw == 0 && Flavour == "auto") || (crowdDraw < 45 && Flavour == "autorace") {
+		return genCrowd(r, "C13", 0)
 	}
 	maxW := 16
 	if tier == "thorough" {
@@ -383,7 +447,10 @@ func GenC13(seed uint64, tier string) *Config {
 	}
 	data := genData(r)
 	c.DataHex = hex.EncodeToString(data)
-	L := len(data) + 8
+	if r.IntN(40) == 0 {
+		c.BigData = pick(r, 1<<16, 1<<20, 1<<20+1+r.IntN(4096), 3<<20, 1<<18+r.IntN(1<<18), 5<<20)
+	}
+	L := c.msgLen()
 	c.Strat = genStrategy(r, c.Workers)
 	c.StepCap = 200 + r.IntN(1500)
 	stubMode := r.IntN(10) < 7
@@ -466,6 +533,11 @@ func GenC13(seed uint64, tier string) *Config {
 // GenC11 draws the configuration of run seed for property C11 (v1, no cancellation).
 func GenC11(seed uint64, tier string) *Config {
 	r := kernel.NewRand(seed)
+	// concurrent calls (auto-instrumented flavours): whatever a call returns without error must meet the target for ITS
+	// message, also while other calls are mining — on the same Worker object or on others
+	if crowdDraw := r.IntN(60); crowdDraw == 0 && (Flavour == "auto" || Flavour == "autorace") {
+		return genCrowd(r, "C11", 1)
+	}
 	c := &Config{Prop: "C11", Version: 1, Workers: genWorkers(r, 16), MustFind: true}
 	data := genData(r)
 	c.DataHex = hex.EncodeToString(data)
@@ -520,6 +592,9 @@ func GenC11(seed uint64, tier string) *Config {
 			if c.Workers < 3 || r.IntN(2) == 0 {
 				c.Workers = pick(r, 2, 3, 3, 4, 5, 6, 7, 8, 16)
 			}
+			if r.IntN(5) == 0 {
+				c.Workers = pick(r, 128, 128, 256, 65+r.IntN(192), 65+r.IntN(192)) // more workers than lanes in a batch
+			}
 			if note = plantCarry(r, c, "zeros:+0"); note != "" {
 				c.TargetNote += " " + note
 				c.StepCap, c.HardCap = 100, 100+c.Workers*2400
@@ -536,6 +611,9 @@ func GenC11(seed uint64, tier string) *Config {
 // GenC12 draws the configuration of run seed for property C12 (v2).
 func GenC12(seed uint64, tier string) *Config {
 	r := kernel.NewRand(seed)
+	if crowdDraw := r.IntN(60); crowdDraw == 0 && (Flavour == "auto" || Flavour == "autorace") {
+		return genCrowd(r, "C12", 2) // see GenC11
+	}
 	c := &Config{Prop: "C12", Version: 2, MustFind: true}
 	if r.IntN(10) < 6 {
 		c.Workers, c.PassOver = 1, true
@@ -613,6 +691,9 @@ func GenC12(seed uint64, tier string) *Config {
 		if note := ""; !c.PassOver && r.IntN(6) == 0 {
 			if c.Workers < 3 || r.IntN(2) == 0 {
 				c.Workers = pick(r, 2, 3, 3, 4, 5, 6, 7, 8, 16)
+			}
+			if r.IntN(5) == 0 {
+				c.Workers = pick(r, 128, 128, 256, 65+r.IntN(192), 65+r.IntN(192)) // more workers than lanes in a batch
 			}
 			if note = plantCarry(r, c, pick(r, "zeros:+0", "below", "T")); note != "" {
 				c.TargetNote += " " + note
